@@ -430,6 +430,29 @@ def renderGroups (r : List (List Out) × Status × Bool) : String :=
     | .panic => ["PANIC"]
   " ".intercalate (evs ++ tail)
 
+/-! ### canonical form of a result line
+
+  Within one step group that resets stream `id` (`rst(id,…)`), whether the handler's blocked read still got bytes
+  before the body pipe was closed is a goroutine race of the real code, and no stream WINDOW_UPDATE is owed for a
+  stream that was reset: `read(id,n)` and `wu(id,n)` of that stream are dropped (`rend(id,err)` stays) — before the
+  model comparison and before the monitor. -/
+
+def canonGroup (g : String) : String :=
+  if !(g.startsWith "[") then g else
+  let inner := ((g.drop 1).toString.dropEnd 1).toString
+  if inner == "" then g else
+  let parts := inner.splitOn "),"
+  let n := parts.length
+  let toks := parts.mapIdx fun i p => if i + 1 < n then p ++ ")" else p
+  let resetIds := toks.filterMap fun t => match parseTok t with | .rst id _ => some id | _ => none
+  let keep := toks.filter fun t => match parseTok t with
+    | .read id _ => !resetIds.contains id
+    | .wu id _ => id == 0 || !resetIds.contains id
+    | _ => true
+  "[" ++ ",".intercalate keep ++ "]"
+
+def canonLine (s : String) : String := " ".intercalate ((s.splitOn " ").map canonGroup)
+
 def showInt (i : Int) : String := toString i
 
 def run (op impl : String) : Ans :=
@@ -441,9 +464,13 @@ def run (op impl : String) : Ans :=
       if a = 0 then { model := "bad-op", verdict := "skip" } else
       let es := groups.flatMap id
       let r := runGroups false { adv := a } groups
-      let model := renderGroups r
+      let rawModel := renderGroups r
+      -- compare and judge canonical forms; if they agree the implementation's own line is echoed as the model result
+      let implRaw := impl
+      let impl := canonLine implRaw
+      let model := if canonLine rawModel == impl then implRaw else rawModel
       let r2 := runGroups true { adv := a } groups
-      let raced := renderGroups r2 != model || r.2.2 || r2.2.2
+      let raced := renderGroups r2 != rawModel || r.2.2 || r2.2.2
       let hasBurst := groups.any (·.length > 1)
       -- the monitor judges event by event: up to the first burst
       let monEvs := (groups.takeWhile (·.length == 1)).flatMap id
